@@ -207,4 +207,8 @@ func runC17(c *Ctx) {
 	q := f.Params[2]
 	c.check(udpCall.Call.Args[2] == ssa.Value(q), "udp-query", instrPos(udpCall), "UDP exchange sends q", "the UDP exchange does not send the caller's query")
 	c.check(tcpCall.Call.Args[2] == ssa.Value(q), "tcp-query", instrPos(tcpCall), "TCP exchange re-sends the same q", "the TCP retry does not send the same query")
+
+	c.rule("R5", "the bytes of a received reply (incl. the TC flag the fallback tests) are not modified on their way to the caller, except the id restoration", 3)
+	checkReplyBytesUntouched(c, p.funcsIn(relTransport, relUpstream, relDnsutils, relDoh))
+
 }
